@@ -287,8 +287,15 @@ func (m *multiWidthIndex) Load(items []Record) error {
 
 	// Sort each list. then write to compact form.
 	for width, lst := range idxs {
-		sort.Sort(recordSet(lst))
 		rcrdWdth := width + 8
+		// Load inserts: keep the records an earlier Load has put into the bucket of this width.
+		if prev, ok := (*m)[uint32(rcrdWdth)]; ok {
+			for i := 0; i+rcrdWdth <= len(prev.index); i += rcrdWdth {
+				rec := prev.index[i : i+rcrdWdth]
+				lst = append(lst, digestRecord{rec[:width], binary.LittleEndian.Uint64(rec[width:])})
+			}
+		}
+		sort.Sort(recordSet(lst))
 		compact := make([]byte, rcrdWdth*len(lst))
 		for off, itm := range lst {
 			itm.write(compact[off*rcrdWdth : (off+1)*rcrdWdth])
